@@ -64,8 +64,9 @@ type Config struct {
 	AssertSolver     string // one-shot back end for assertion queries (e.g. cvc5-int for checksum arithmetic)
 	AssertTimeoutMs  int
 	BMCTimeoutMs     int
-	DivergeViolation bool // exceeding the unwinding / step bound is non-termination, reported with a model
-	NoLemmas         bool // do not add proven assertions to the path condition
+	NoStub           map[string]bool // functions whose stub is switched off for this obligation (the real body runs)
+	DivergeViolation bool            // exceeding the unwinding / step bound is non-termination, reported with a model
+	NoLemmas         bool            // do not add proven assertions to the path condition
 }
 
 // Stats of one obligation run.
@@ -1637,7 +1638,7 @@ func (x *X) callFn(fn *ssa.Function, args []Value, bind []Value, cc *ssa.CallCom
 	if x.bmc != nil && strings.HasPrefix(name, "sync/atomic.") {
 		x.bmcAtVisible(name)
 	}
-	if h, ok := intrinsics[name]; ok && !(x.realSleep && strings.Contains(name, "/pkg/sleep.")) {
+	if h, ok := intrinsics[name]; ok && !(x.realSleep && strings.Contains(name, "/pkg/sleep.")) && !x.Cfg.NoStub[name] {
 		x.St.StubsUsed[name]++
 		return h(x, fn, args)
 	}
